@@ -17,8 +17,9 @@
    hashes of the Transactions / ChangeLogSlice / DeputyNodes objects) and, per slot, the range a kept tree was built
    over.  Every result - nodes, root, root of a second tree over the same slice, sibling paths, Verify, the three
    MerkleRootSha wrappers, a kept tree asked again - must be the pure function of the range as originally given
-   (so it cannot depend on any other computation of the history), and after EVERY call the caller's lists, read
-   back from the shared storage, must be exactly what was given (no computation disturbs another one's input). *)
+   (so it cannot depend on any other computation of the history), and after EVERY call (and every append of the
+   caller) the caller's lists, read back from the shared storage, must be exactly what was given and every kept
+   tree must answer what it answered (no computation disturbs another one's input or result). *)
 EXTENDS MerkleOps, TraceBase
 VARIABLES ls, ids, fids, hd
 tvars == <<ls, ids, fids, hd, l>>
@@ -71,14 +72,23 @@ Record(atoms, roothex) ==                            \* the run-wide root functi
   /\ IF atoms \in DOMAIN ro THEN TRUE ELSE TLCSet(3, (atoms :> roothex) @@ ro)
   /\ IF roothex \in DOMAIN co THEN TRUE ELSE TLCSet(4, (roothex :> atoms) @@ co)
 ListsKept(i0, f0) == E.list = i0 /\ E.famlist = f0    \* the caller's lists, read back after the call, are what was given
+KeptOK(h) ==                                         \* every tree the caller holds still answers what it answered (asked after every call)
+  /\ Len(E.kept) = Len(h)
+  /\ \A s \in 1..Len(h) :
+       IF h[s] = NoTree THEN E.kept[s].live = 0
+       ELSE LET nodes == Nodes(OrH, h[s]) IN
+            /\ E.kept[s].live = 1
+            /\ \A k \in 1..Len(nodes) : nodes[k] # 0
+            /\ E.kept[s].nodes = nodes /\ E.kept[s].nodes2 = nodes /\ E.kept[s].root = Root(OrH, E.empty, h[s])
 
 AppendOK(x) ==
   /\ E.leaf # 0 /\ Len(E.famleaf) = 3
   /\ \A k \in 1..Len(ls) : (ls[k] = x) <=> (ids[k] = E.leaf)                       \* instantiation is faithful
   /\ \A f \in 1..3 : \A k \in 1..Len(ls) : (ls[k] = x) <=> (fids[f][k] = E.famleaf[f])
   /\ ListsKept(Append(ids, E.leaf), [f \in 1..3 |-> Append(fids[f], E.famleaf[f])])
+  /\ KeptOK(hd)                                                                   \* the caller's append disturbs no kept tree
 
-ComputeOK(i, j) ==
+ComputeOK(i, j, hdn) ==
   LET given == SubSeq(ids, i + 1, j)
       nodes == Nodes(OrH, given)  root == Root(OrH, E.empty, given) IN
   /\ \A k \in 1..Len(nodes) : nodes[k] # 0
@@ -91,6 +101,7 @@ ComputeOK(i, j) ==
        /\ Verify(OrH, given[p.pos], root, sib)
   /\ \A f \in 1..3 : E.famroot[f] = Root(OrH, E.empty, SubSeq(fids[f], i + 1, j))   \* Transactions / ChangeLogSlice / DeputyNodes
   /\ ListsKept(ids, fids)
+  /\ KeptOK(hdn)
   /\ Record(SubSeq(ls, i + 1, j), E.roothex)
 
 RereadOK(given) ==
@@ -98,6 +109,7 @@ RereadOK(given) ==
   /\ \A k \in 1..Len(nodes) : nodes[k] # 0
   /\ E.nodes = nodes /\ E.nodes2 = nodes /\ E.root = Root(OrH, E.empty, given)      \* a kept result is still what it was
   /\ ListsKept(ids, fids)
+  /\ KeptOK(hd)
 
 \* "= TRUE": one boolean, no branching on the disjunctions inside
 TReset == Ev("reset") /\ "hist" \notin DOMAIN E /\ ls' = <<>> /\ NoHist /\ RowOK(<<>>) = TRUE
@@ -111,8 +123,8 @@ TAppend == Ev("AppendLeaf") /\ Len(fids) = 3 /\ AppendOK(E.a[1]) = TRUE
            /\ hd' = hd
 TCompute == Ev("Compute") /\ Len(fids) = 3
             /\ E.a[2] <= E.a[3] /\ E.a[3] <= Len(ls) /\ E.a[4] \in 0..Len(hd)
-            /\ ComputeOK(E.a[2], E.a[3]) = TRUE
             /\ hd' = (IF E.a[4] = 0 THEN hd ELSE [hd EXCEPT ![E.a[4]] = SubSeq(ids, E.a[2] + 1, E.a[3])])
+            /\ ComputeOK(E.a[2], E.a[3], hd') = TRUE
             /\ UNCHANGED <<ls, ids, fids>>
 TReread == Ev("Reread") /\ Len(fids) = 3 /\ E.a[1] \in 1..Len(hd) /\ hd[E.a[1]] # NoTree
            /\ RereadOK(hd[E.a[1]]) = TRUE
